@@ -897,6 +897,10 @@ func casterCasCases(h *hctx) {
 		casterSafeSend(x, 1)
 		setPolicy(nil)
 	}
+	sp.mu.Lock()
+	seen := append([]int(nil), sp.ids...) // a private copy: nothing should announce through sp any more, but be safe
+	sp.mu.Unlock()
+	sp = &casterSeqPolicy{ids: seen}
 	if len(sp.ids) < 3 {
 		h.line("MONITOR C08 harness: a Send passed only %d instrumentation points", len(sp.ids))
 		return
